@@ -20,7 +20,7 @@ RULE = ("continuous and grid worlds, wrapping and not; 0-8 agents on a coarse la
 COMPONENTS = {"real": ["ECAgent.Environments.SpaceWorld.get_agents_at", "add_agent / move / move_to / remove_agent"],
               "stub": ["agents are plain ECAgent agents created by the harness"]}
 PROBES = ["axis_leeway_larger", "general_leeway_larger", "negative_leeway", "empty_answer", "coincident_agents",
-          "query_outside_world", "seam_crossing_box", "agent_on_face", "wrap_world", "moved_since_placement"]
+          "query_outside_world", "seam_crossing_box", "agent_on_face", "wrap_world", "moved_since_placement", "rejected_duplicate_add"]
 TECHNIQUE = "deterministic simulation: positional queries inside seeded move/remove histories vs an exact geometric filter (seam-aware in wrapping worlds)"
 LEVEL_TEXT = ("Seeded search over placements, move histories and query boxes; every answer must equal, as an ordered id list, an "
               "exact geometric filter over the reference positions (distance around the seam in wrapping worlds); the query "
@@ -51,7 +51,7 @@ def gen_leeways(rng, ref):
 def generate(rng, tier):
     world = gen_world(rng, kinds=("space", "space", "discrete", "line", "grid"), subunit=0.12)
     ref = RefWorld(world)
-    n = rng.randint(0, 8)
+    n = rng.randint(0, 12 if tier == "thorough" else 8)
     ops = []
     for k in range(n):
         ops.append({"op": "add", "k": k, "p": [lattice(rng, ref, ax, 0) for ax in range(3)]})
@@ -68,6 +68,8 @@ def generate(rng, tier):
             ops.append({"op": "remove", "k": rng.randrange(n)})
         else:
             ops.append({"op": "add", "k": rng.randrange(n), "p": [lattice(rng, ref, ax, 0) for ax in range(3)]})
+            if rng.random() < 0.5:
+                ops.append({"op": "move", "k": ops[-1]["k"], "d": [rng.randint(-2, 2) * step for _ in range(3)]})
     return {"world": world, "n": n, "ops": ops}
 
 
@@ -151,6 +153,14 @@ def execute(sc, ctx):
         a = agents[k]
         if kind == "add":
             p = [int(c) for c in op["p"]]
+            if k in pos and ref.inside(p):
+                # rejected duplicate placement (other coordinates): positions and later answers must not change
+                from ECAgent.Core import DuplicateAgentError
+                ctx.fault("reject.dup_agent")
+                ctx.probe("rejected_duplicate_add")
+                ctx.expect_raises("add-duplicate", DuplicateAgentError, env.add_agent, a, *ref.real(p))
+                ctx.event("add_dup", k)
+                continue
             if k in pos or not ref.inside(p):
                 continue
             ctx.expect_ok("add", env.add_agent, a, *ref.real(p))
